@@ -180,6 +180,9 @@ def c20_events(run, d):
     _, paths = dumps.flatten_soft_errors(d.get("soft_errors_raw", ""))
     soft = "PrincipalMappingNotReferenced" in paths
     crash_refs = False
+    nthr = len(ths)
+    limit = d["opts"].get("size_limit")
+    lim_eff = limit is not None and (252 + 48 * nthr + nthr * 8192 + 65536) > limit
     if pm is not None:
         low, high = pm["s"], pm["e"]
         B = low - 64
@@ -198,7 +201,18 @@ def c20_events(run, d):
                 if m is None:
                     continue
                 ip = int(th["ctx"]["rip"], 16)
-                ws = _words(m["hex"], m["from"])
+                hexs = m["hex"]
+                if lim_eff and i >= 20:
+                    # under an effective size limit only the 2 KiB chunk that holds the stack pointer is kept (and scanned): words above
+                    # it do not count (StackSel: ApplyLimit before Included)
+                    sp_ = int(th["ctx"]["rsp"], 16)
+                    vstart = sp_ & ~(PAGE - 1)
+                    slen = m["from"] + len(hexs) // 2 - vstart
+                    if slen > 2048:
+                        skipped = (sp_ - vstart) // 2048 * 2048
+                        kept_end = vstart + skipped + min(slen - skipped, 2048)
+                        hexs = hexs[:2 * max(0, kept_end - m["from"])]
+                ws = _words(hexs, m["from"])
             near = [rel(w) for w in ws if B <= w <= high + 64]
             if is_crash:
                 crash_refs = (low <= ip < high) or any(low <= w < high for w in ws)
